@@ -263,6 +263,11 @@ func (t *SessionTeardown) cleanup(session *Session, cause TerminateCause) error 
 	if session.GetState() == StateClosed {
 		return nil
 	}
+	if t.sessions != nil && t.sessions.GetSession(session.ID) != session {
+		// Already removed by an earlier cleanup (a concurrent server-initiated
+		// termination may have moved the state back to Terminating since)
+		return nil
+	}
 
 	ctx, cancel := context.WithTimeout(context.Background(), t.config.CleanupTimeout)
 	defer cancel()
